@@ -66,13 +66,15 @@ PROPS["C16"] = {
 
 
 PROPS["C07"] = {
+    "witness_always": ["stdlib_expansion"],
+    "witness_bound": {"stdlib_expansion": "1232 generated conditional trees of depth <= 3 (\\iftrue/\\iffalse/\\ifnum/\\ifodd incl. negative operands/\\ifcase -1..3, \\let aliases, unbalanced braces in skipped text) against a tree evaluator; every token string of length <= 6 over {\\expandafter, three macros, a letter} (19530 strings) expanded by BOTH \\expandafter implementations against a transcription of TeX's expand-once rule"},
     "level": "proof",
     "verus": ["stdlib_cond"],
     "kani": [],
     "unverified_callers": [
         "Condition::build_if_command closure (evaluate -> true_case/false_case dispatch) and the VM expansion loop",
         "Parsable for i32 / (i32, Ordering, i32): assumed to return an arbitrary value and only consume tokens",
-        "expansion.rs: \\expandafter simple vs optimised equivalence and \\noexpand are NOT decided (expand_once is VM-internal)",
+        "expansion.rs: \\expandafter simple vs optimised equivalence is covered by the bounded driver only (expand_once is VM-internal, no contract within reach); \\noexpand is NOT decided",
         "command tags preserved by \\let (assumed: tag_of reads the tag of the aliased command)",
     ],
     "assumptions": ["the four conditional tags are pairwise distinct (StaticTag uniqueness, C20 tag clause)", "fewer than 2^31 - 65536 pending tokens (depth counter is an i32)"],
